@@ -58,6 +58,18 @@ Definition corr_kernel (k : kspec) (x y : list float) (expected expected_sym : f
   | _ => feq_rel 0x1.12e0be826d695p-30%float 0x1.19799812dea11p-40%float v expected
   end.
 
+(* the same with an explicit relative tolerance (offset rows: large common offset, small spread; the
+   model forms the differences first, like the code, so its exponent is bit-identical and only the
+   software exp / ln / pow / tanh differ from libm) *)
+Definition corr_kernel_tol (k : kspec) (x y : list float) (expected expected_sym tol atol : float) : bool :=
+  let v := kfun k x y in
+  let v' := kfun k y x in
+  feq expected expected_sym && feq v v' &&
+  match k with
+  | KLinear => feq v expected
+  | _ => feq_rel tol atol v expected
+  end.
+
 (* ---- SVC ---------------------------------------------------------------------------------- *)
 Definition srec := (N * float * float * float * float)%type.   (* index, alpha, grad, cmin, cmax *)
 
